@@ -60,7 +60,7 @@ PROPS['C19'] = dict(level='model_checking',
   ])
 
 PROPS['C05'] = dict(level='model_checking',
-  bounds='sequential (T=1) execution of each listed expression shape; leaf outcomes (value/error/done) and 8-bit payloads symbolic; depth<=2, <=3 children',
+  bounds='sequential (T=1) execution of each listed expression shape; leaf outcomes (value/error/done) and 8-bit payloads symbolic; depth<=2, <=3 children; retry_when and repeat_effect_until with <=2 injected retries/iterations',
   outside='expression shapes not in the catalogue; concurrent completion orders (see C01/C04 harnesses)',
   harnesses=[SEQ('seq_' + n, 'C05_seq.cpp', 'h_' + n, desc=n + ' over symbolic leaf outcomes') for n in
      ['then', 'upon_error', 'upon_done', 'let_value', 'let_error', 'let_done', 'sequence', 'finally', 'materialize', 'just']] +
@@ -175,6 +175,8 @@ PROPS['C14'] = dict(level='model_checking',
   harnesses=[SEQ('fd_first_%d' % c, 'C14_fd.cpp', 'h_fd', opts=dict(params=[c], max_visits=100), desc='safe_file_descriptor: first operation %d, then three symbolic operations out of 8' % c) for c in range(8)] +
             [SEQ('mmap_seq', 'C14_fd.cpp', 'h_mmap', opts=dict(params=[0], max_visits=100), desc='mmap_region: three symbolic operations out of 4')])
 PROPS['C11']['harnesses'] += [SEQ('via_throw_k%d' % k, 'C11_viathrow.cpp', 'h_via_throw', exc=True, opts=dict(params=[k]), desc='via over a source completing on a foreign context with a value whose copy #%d throws' % k) for k in (0, 1, 2, 99)]
+PROPS['C05']['harnesses'] += [SEQ('seq2_' + n, 'C05_seq2.cpp', 'h_' + n, desc=n + ' over symbolic leaf outcomes') for n in ('done_as_optional', 'defer_just_from', 'let_value_with')] + \
+   [SEQ('seq2_%s_%d' % (n, k), 'C05_seq2.cpp', 'h_' + n, opts=dict(params=[k], max_rec=8), desc='%s with %d injected retries/iterations; final outcome symbolic' % (n, k)) for n in ('retry_when', 'repeat_until') for k in (0, 1, 2) if not (n == 'repeat_until' and k == 0)]
 # cross-registration: harnesses whose assertions also decide clauses of other properties
 PROPS['C04']['harnesses'] += [h for h in PROPS['C01']['harnesses'] if h['name'] in ('wa_race_min', 'sw_race_min')]
 PROPS['C05']['harnesses'] += [h for h in PROPS['C04']['harnesses'] if h['name'] == 'wa_inline_cancel'] + \
